@@ -74,11 +74,15 @@ func (q c13query) Group(ctx context.Context, in *dtypes.QueryGroupRequest, opts 
 }
 
 func (q c13query) Bid(ctx context.Context, in *mtypes.QueryBidRequest, opts ...grpc.CallOption) (*mtypes.QueryBidResponse, error) {
-	switch verif_Gate("QueryBid", 3) {
+	switch verif_Gate("QueryBid", 4) {
 	case 1:
 		return nil, errors.New("rpc error: bid not found in store")
 	case 2:
+		q.e.add(c13call{what: "LookupFailed"})
 		return nil, errors.New("connection refused")
+	case 3:
+		q.e.add(c13call{what: "LookupFailed"})
+		return nil, errors.New("rpc error: code = Unknown desc = 404 page not found") // not the market module's answer
 	}
 	q.e.add(c13call{what: "ExistingBid", ok: true})
 	return &mtypes.QueryBidResponse{}, nil
@@ -249,6 +253,12 @@ func c13oracle(e *c13env, returned bool) {
 		}
 	}
 	verif_Assert(nCreate <= 1, "C13 at most one bid is submitted per order")
+	for _, c := range e.calls {
+		if c.what == "LookupFailed" {
+			// whether a bid from an earlier session exists is unknown: bidding now could be a second bid
+			verif_Assert(nCreate == 0, "C13 at most one bid is submitted per order")
+		}
+	}
 	verif_Assert(reservedBeforeBid, "C13 a bid is submitted only after resources were reserved")
 	if !won {
 		verif_Assert(nUnreserve >= nReserveOK, "C13 every reservation is released when the order ends without a won lease")
